@@ -135,3 +135,9 @@ PROPS["C10"] = {"units": [
     rapid_unit("deadlines-async1", "rdl", "^TestC10Deadlines$", 150, 16 * 400, overlay="plain", env={"GODEBUG": "asynctimerchan=1"}),
     rapid_unit("deadlines-async0", "rdl", "^TestC10Deadlines$", 150, 16 * 400, overlay="plain", env={"GODEBUG": "asynctimerchan=0"}),
 ]}
+
+PROPS["C19"] = {"units": [
+    plain_unit("regress", "race", "^TestRegressC19", race=True),
+    rapid_unit("programs", "race", "^TestC19Programs$", 700, 16 * 6000, race=True,
+               replay_run="^TestC19Replay$", shrinktime="1s"),
+]}
